@@ -279,7 +279,7 @@ func ruleOptionFields(c *Check, p *Program, rule string) {
 			})
 			continue
 		}
-		sfn := shortFn(fn)
+		_ = shortFn
 		per := map[string]int{}
 		allInstrs(fn, func(in ssa.Instruction) {
 			var what string
@@ -300,15 +300,19 @@ func ruleOptionFields(c *Check, p *Program, rule string) {
 			if what == "" {
 				return
 			}
-			// the Reader's descriptor is parsed from the stream, not configured: initR is its writer
-			if sfn == "FrameDescriptor.initR" {
-				return
+			// a helper writes on behalf of its callers: attribute the write to them
+			for _, ctx := range anchorContexts(fn, 2) {
+				cfn := shortFn(ctx)
+				// the Reader's descriptor is parsed from the stream, not configured: initR is its writer
+				if cfn == "FrameDescriptor.initR" || isOptionClosure(ctx) {
+					continue
+				}
+				per[what]++
+				key := cfn + "#writes-option:" + what
+				c.Sites++
+				c.Fail(rule, key, p.InstrPos(in), "configuration set through Option functions (level, concurrency, handler, legacy, descriptor flags, content size) is written only by the option closures: it persists across Reset and is not altered by the object itself",
+					cfn+" writes "+what+" outside an Option closure: the applied option is lost or altered")
 			}
-			per[what]++
-			key := sfn + "#writes-option:" + what
-			c.Sites++
-			c.Fail(rule, key, p.InstrPos(in), "configuration set through Option functions (level, concurrency, handler, legacy, descriptor flags, content size) is written only by the option closures: it persists across Reset and is not altered by the object itself",
-				sfn+" writes "+what+" outside an Option closure: the applied option is lost or altered")
 		})
 	}
 	if seenWriters < 8 {
@@ -384,4 +388,27 @@ func ruleResetRearms(c *Check, p *Program, rule string) {
 		})
 		c.Cond(magic && dcs && blocks, rule, "Frame.Reset#per-frame-fields", p.Pos(fn.Pos()), "Frame.Reset clears the magic (header not yet read/written), the header-written latch and closes the block pipeline", "Magic = 0, Descriptor.Checksum = 0, Blocks.close()", fmt.Sprintf("Magic cleared: %v, header latch cleared: %v, pipeline closed: %v", magic, dcs, blocks))
 	}
+}
+
+// lifecycleAnchors: unexported functions that the lifecycle rules (and the
+// recorded findings) name directly; a write inside any other unexported helper
+// is attributed to the anchors that call it.
+var lifecycleAnchors = map[string]bool{"Reader.init": true, "Writer.init": true, "CompressingReader.init": true,
+	"FrameDescriptor.initR": true, "FrameDescriptor.initW": true, "Writer.write": true, "Reader.read": true}
+
+func anchorContexts(f *ssa.Function, depth int) []*ssa.Function {
+	if depth <= 0 || lifecycleAnchors[shortFn(f)] || !isHelper(f) {
+		return []*ssa.Function{f}
+	}
+	seen := map[*ssa.Function]bool{}
+	var out []*ssa.Function
+	for _, ci := range callSitesOf(f) {
+		for _, g := range anchorContexts(ci.Parent(), depth-1) {
+			if !seen[g] {
+				seen[g] = true
+				out = append(out, g)
+			}
+		}
+	}
+	return out
 }
